@@ -734,6 +734,9 @@ class BuiltinMixin(object):
 
     def bi_str_join(self, st, args, kw):
         sep, it = args
+        if isinstance(it, Ref) and isinstance(st.get(it), Obj) and st.get(it).cls.name == "SymKeys":
+            yield st, Sym("str", st.get(it).fields["joined"])
+            return
         for st1, seq in self.as_sequence(st, it):
             if isinstance(seq, Raised):
                 yield st1, seq
